@@ -4,6 +4,8 @@ import LinfaSpec.Proofs.MetricsRoc2
 import LinfaSpec.Proofs.MetricsReal
 import LinfaSpec.Proofs.MetricsMore
 import LinfaSpec.Proofs.MetricsGlue
+import LinfaSpec.Proofs.MetricsCall
+import LinfaSpec.Proofs.MetricsSil
 
 /-!
 # C05 — every evaluation metric equals its definition recomputed from first principles
@@ -886,5 +888,294 @@ example : silhouette [[0, 1, 4, 5], [1, 0, 3, 4], [4, 3, 0, 1], [5, 4, 1, (0 : R
   decide +kernel
 
 end Silhouette
+
+/-! ## Round 3, second audit: call-level statements, the exact group test of the repaired `roc`,
+the Euclidean distances of the silhouette, the coded explained variance with its regulariser -/
+
+section CallLevel
+variable {L : Type} [LinearOrder L]
+
+/-- **accuracy at the level of the call**: for equally long inputs the accuracy of the returned
+matrix is the fraction of samples whose two labels are equal (no side hypotheses left) -/
+theorem accuracy_confusion {α : Type} [Field α] (pred truth : List L) (h : pred.length = truth.length) :
+    ∃ m, confusion pred truth = some (classes pred truth, m) ∧
+      (accuracy m : α) = (((pred.zip truth).filter fun p => p.1 = p.2).length : α) / (pred.length : α) := by
+  refine ⟨_, confusion_eq pred truth h, ?_⟩
+  rw [accuracy_def _ (nodup_classes pred truth) _ (pairs_in_classes pred truth)]
+  simp [List.length_zip, h]
+
+example : (([0, 1, 1].zip [1, 1, 0]).filter fun p : Nat × Nat => p.1 = p.2).length = 1 := by decide
+
+/-- **Matthews correlation at the level of the call** (`mcc_confusion` with its hypotheses discharged) -/
+theorem mcc_confusion_call (pred truth : List L) (h : pred.length = truth.length) :
+    ∃ m, confusion pred truth = some (classes pred truth, m) ∧
+      (mcc m : ℝ) =
+        ((((pred.zip truth).filter fun p => p.1 = p.2).length : ℝ) * ((pred.zip truth).length : ℝ) -
+          ((classes pred truth).map fun c => (((pred.zip truth).filter fun p => p.1 = c).length : ℝ) *
+            (((pred.zip truth).filter fun p => p.2 = c).length : ℝ)).sum) /
+        Real.sqrt (((classes pred truth).map fun c => (((pred.zip truth).filter fun p => p.1 = c).length : ℝ) *
+          (((pred.zip truth).length : ℝ) - (((pred.zip truth).filter fun p => p.1 = c).length : ℝ))).sum) /
+        Real.sqrt (((classes pred truth).map fun c => (((pred.zip truth).filter fun p => p.2 = c).length : ℝ) *
+          (((pred.zip truth).length : ℝ) - (((pred.zip truth).filter fun p => p.2 = c).length : ℝ))).sum) :=
+  ⟨_, confusion_eq pred truth h, mcc_confusion _ (nodup_classes pred truth) _ (pairs_in_classes pred truth)⟩
+
+example : ([0, 1, 2] : List Nat).length = ([2, 1, 0] : List Nat).length := rfl
+
+/-- **one-vs-one split in terms of the samples**: the matrices of `split_one_vs_one` are exactly the
+`[[N(a,a), N(a,b)], [N(b,a), N(b,b)]]` for the pairs of members `a = cs[i]`, `b = cs[j]`, `i < j`, with
+`N(a,b)` the number of samples predicted `a` whose truth is `b` (`ovo_split_cells` counts them: N(N-1)/2) -/
+theorem ovo_split_counts (cs : List L) (hnd : cs.Nodup) (pairs : List (L × L)) :
+    (∀ M ∈ splitOneVsOne (countLoop cs pairs), ∃ (i j : Nat) (a b : L), i < j ∧ cs[i]? = some a ∧ cs[j]? = some b ∧
+        M = [[pairCount pairs a a, pairCount pairs a b], [pairCount pairs b a, pairCount pairs b b]]) ∧
+    (∀ (i j : Nat) (a b : L), i < j → cs[i]? = some a → cs[j]? = some b →
+        [[pairCount pairs a a, pairCount pairs a b], [pairCount pairs b a, pairCount pairs b b]] ∈
+          splitOneVsOne (countLoop cs pairs)) := by
+  have hlen : (countLoop cs pairs).length = cs.length := (countLoop_square cs pairs).1
+  constructor
+  · intro M hM
+    unfold splitOneVsOne at hM
+    simp only [List.mem_flatMap, List.mem_map, List.mem_filter, List.mem_range, decide_eq_true_eq, hlen] at hM
+    obtain ⟨i, hi, j, ⟨hj, hij⟩, rfl⟩ := hM
+    have ha : cs[i]? = some cs[i] := List.getElem?_eq_getElem hi
+    have hb : cs[j]? = some cs[j] := List.getElem?_eq_getElem hj
+    refine ⟨i, j, cs[i], cs[j], hij, ha, hb, ?_⟩
+    rw [cm_cells_count cs hnd pairs i i _ _ ha ha, cm_cells_count cs hnd pairs i j _ _ ha hb,
+      cm_cells_count cs hnd pairs j i _ _ hb ha, cm_cells_count cs hnd pairs j j _ _ hb hb]
+    rfl
+  · intro i j a b hij ha hb
+    have hi : i < cs.length := (List.getElem?_eq_some_iff.mp ha).1
+    have hj : j < cs.length := (List.getElem?_eq_some_iff.mp hb).1
+    unfold splitOneVsOne
+    simp only [List.mem_flatMap, List.mem_map, List.mem_filter, List.mem_range, decide_eq_true_eq, hlen]
+    refine ⟨i, hi, j, ⟨hj, hij⟩, ?_⟩
+    rw [cm_cells_count cs hnd pairs i i _ _ ha ha, cm_cells_count cs hnd pairs i j _ _ ha hb,
+      cm_cells_count cs hnd pairs j i _ _ hb ha, cm_cells_count cs hnd pairs j j _ _ hb hb]
+    rfl
+
+example : splitOneVsOne (countLoop [0, 1, 2] [(0, 0), (1, 2), (1, 1), (2, 1), (1, 0)]) =
+    [[[1, 0], [1, 1]], [[1, 0], [0, 0]], [[1, 1], [1, 0]]] := by decide
+
+/-- **precision and recall of a binary matrix in terms of the samples**: with members `[c0, c1]`
+precision is `N(c0,c0) / (N(c0,c0) + N(c1,c0))` and recall `N(c0,c0) / (N(c0,c0) + N(c0,c1))` -/
+theorem precision_recall_counts_binary {α : Type} [Field α] (c0 c1 : L) (hne : c0 ≠ c1) (pairs : List (L × L)) :
+    (precision (countLoop [c0, c1] pairs) : α) =
+      (pairCount pairs c0 c0 : α) / ((pairCount pairs c0 c0 : α) + (pairCount pairs c1 c0 : α)) ∧
+    (recall (countLoop [c0, c1] pairs) : α) =
+      (pairCount pairs c0 c0 : α) / ((pairCount pairs c0 c0 : α) + (pairCount pairs c0 c1 : α)) := by
+  have hnd : ([c0, c1] : List L).Nodup := by simp [hne]
+  have hlen : (countLoop [c0, c1] pairs).length = 2 := (countLoop_square [c0, c1] pairs).1
+  obtain ⟨hp, hr⟩ := (precision_recall_documented (α := α) (countLoop [c0, c1] pairs)).1 hlen
+  rw [hp, hr, cm_cells_count _ hnd pairs 0 0 c0 c0 rfl rfl, cm_cells_count _ hnd pairs 1 0 c1 c0 rfl rfl,
+    cm_cells_count _ hnd pairs 0 1 c0 c1 rfl rfl]
+  exact ⟨rfl, rfl⟩
+
+example : (precision (countLoop [1, 0] [(0, 1), (1, 1), (0, 0), (1, 1), (0, 0), (1, 1)]) : Rat) = 3 / 4 := by
+  decide +kernel
+
+/-- **macro-averaged precision and recall in terms of the samples** (any number of classes other than
+two): the mean over the members `c` of `TP_c / (TP_c + #{pred ≠ c, truth = c})` resp.
+`TP_c / (TP_c + #{pred = c, truth ≠ c})` -/
+theorem precision_recall_counts_macro {α : Type} [Field α] (cs : List L) (hnd : cs.Nodup) (pairs : List (L × L))
+    (hall : ∀ p ∈ pairs, p.1 ∈ cs ∧ p.2 ∈ cs) (h2 : cs.length ≠ 2) :
+    (precision (countLoop cs pairs) : α) =
+      (cs.map fun c => ((pairs.filter fun p => p.1 = c ∧ p.2 = c).length : α) /
+        (((pairs.filter fun p => p.1 = c ∧ p.2 = c).length : α) +
+          ((pairs.filter fun p => ¬ p.1 = c ∧ p.2 = c).length : α))).sum / (cs.length : α) ∧
+    (recall (countLoop cs pairs) : α) =
+      (cs.map fun c => ((pairs.filter fun p => p.1 = c ∧ p.2 = c).length : α) /
+        (((pairs.filter fun p => p.1 = c ∧ p.2 = c).length : α) +
+          ((pairs.filter fun p => p.1 = c ∧ ¬ p.2 = c).length : α))).sum / (cs.length : α) := by
+  have hlen : (countLoop cs pairs).length = cs.length := (countLoop_square cs pairs).1
+  have hl2 : (countLoop cs pairs).length ≠ 2 := by rw [hlen]; exact h2
+  have hsl : (splitOneVsAll (countLoop cs pairs)).length = cs.length := by simp [splitOneVsAll, hlen]
+  obtain ⟨hp, hr⟩ := (precision_recall_documented (α := α) (countLoop cs pairs)).2.1 hl2
+  rw [hp, hr, hlen]
+  constructor
+  · congr 2
+    apply map_eq_of_getElem? _ _ _ _ hsl
+    intro i c hc
+    exact ⟨_, ova_split_cells cs hnd pairs hall i c hc, by simp [cell]⟩
+  · congr 2
+    apply map_eq_of_getElem? _ _ _ _ hsl
+    intro i c hc
+    exact ⟨_, ova_split_cells cs hnd pairs hall i c hc, by simp [cell]⟩
+
+example : ([0, 1, 2] : List Nat).length ≠ 2 := by decide
+
+end CallLevel
+
+section RocExact
+variable {α : Type} [Field α] [LinearOrder α] [IsStrictOrderedRing α]
+
+/-- the group test of the repaired code, `s0.map_or(true, |s0| *s != s0)`, is the model's
+`isFresh 0` (the driver runs `roc 0 none`) -/
+theorem roc_group_test_is_inequality (s0 s : α) :
+    isFresh (0 : α) (some s0) s = decide (s ≠ s0) ∧ isFresh (0 : α) none s = true := by
+  refine ⟨?_, rfl⟩
+  show decide ((0 : α) < absS (s - s0)) = decide (s ≠ s0)
+  rw [absS_eq_abs]
+  exact decide_eq_decide.mpr (by rw [abs_pos, sub_ne_zero])
+
+example : isFresh (0 : Rat) (some (1/2)) (1/2) = false ∧ isFresh (0 : Rat) (some (1/2)) (3/4) = true := by
+  decide +kernel
+
+/-- **ROC AUC equals the Mann-Whitney rank statistic with ties counted one half — for ALL non-negative
+score vectors** (no separation hypothesis: the repaired code groups exactly the equal scores).
+If a class is absent both sides are `x / 0`. -/
+theorem auc_eq_mannWhitney_exact (samples : List (α × Bool)) (hnn : ∀ x ∈ samples, 0 ≤ x.1) :
+    auc (0 : α) none samples = mannWhitney samples :=
+  auc_eq_mannWhitney 0 le_rfl samples hnn (fun _ _ _ _ h => abs_pos.mpr (sub_ne_zero.mpr h))
+
+example : auc (0 : Rat) none [(1/20000000000, false), (3/25000000000, true)] = 1 ∧
+    mannWhitney [((1/20000000000 : Rat), false), (3/25000000000, true)] = 1 := by
+  refine ⟨by decide +kernel, by decide +kernel⟩
+
+/-- the curve and its thresholds from first principles, for all non-negative score vectors -/
+theorem roc_curve_def_exact (samples : List (α × Bool)) (hnn : ∀ x ∈ samples, 0 ≤ x.1) :
+    ∃ thr : List α, thr.Pairwise (· < ·) ∧ (∀ s, s ∈ thr ↔ ∃ y ∈ samples, y.1 = s) ∧
+      (roc (0 : α) none samples).2 = thr ∧
+      (roc (0 : α) none samples).1 =
+        (thr.map fun s => ((nBelow samples true (some s) : α) / (nBelow samples true none : α),
+                           (nBelow samples false (some s) : α) / (nBelow samples false none : α))) ++
+        [((nBelow samples true none : α) / (nBelow samples true none : α),
+          (nBelow samples false none : α) / (nBelow samples false none : α))] :=
+  roc_shape 0 le_rfl samples hnn (fun _ _ _ _ h => abs_pos.mpr (sub_ne_zero.mpr h))
+
+example : ∀ x ∈ [((1/20000000000 : Rat), false), (3/25000000000, true)], 0 ≤ x.1 := by decide +kernel
+
+/-- curve, thresholds and AUC are unchanged by a joint permutation, for all non-negative score vectors -/
+theorem perm_invariant_roc_exact (samples samples' : List (α × Bool)) (hnn : ∀ x ∈ samples, 0 ≤ x.1)
+    (h : samples.Perm samples') :
+    roc (0 : α) none samples = roc (0 : α) none samples' ∧ auc (0 : α) none samples = auc (0 : α) none samples' :=
+  perm_invariant_roc 0 le_rfl samples samples' hnn (fun _ _ _ _ h => abs_pos.mpr (sub_ne_zero.mpr h)) h
+
+example : ([((0 : Rat), true), (1/2, false)]).Perm [(1/2, false), (0, true)] := by decide +kernel
+
+/-- the defect that was repaired in round 3: with the original group test `|s - s0| > 1e-10` two
+saturated probabilities `5e-11` (negative) and `1.2e-10` (positive) were merged into one group — the
+curve was the diagonal, the area 1/2, where the Mann-Whitney statistic is 1 -/
+theorem roc_epsilon_grouping_defect :
+    (roc (1/10000000000 : Rat) none [(1/20000000000, false), (3/25000000000, true)]).1 = [(0, 0), (1, 1)] ∧
+    auc (1/10000000000 : Rat) none [(1/20000000000, false), (3/25000000000, true)] = 1 / 2 ∧
+    mannWhitney [((1/20000000000 : Rat), false), (3/25000000000, true)] = 1 := by
+  refine ⟨by decide +kernel, by decide +kernel, by decide +kernel⟩
+
+end RocExact
+
+section SilhouetteDist
+
+/-- **the distances the silhouette runs on are Euclidean** (`silhouettePts x l = silhouette (distMatrix x) l`
+is what the driver evaluates): entry `(i, j)` of `distMatrix x` is `√Σ_k (x_ik − x_jk)²`, and the
+diagonal is zero — the hypothesis of `silhouette_a_excludes_self` -/
+theorem silhouette_distances_euclidean (x : List (List ℝ)) (labels : List Nat) :
+    silhouettePts x labels = silhouette (distMatrix x) labels ∧
+    (∀ (i j : Nat) (xi xj : List ℝ), x[i]? = some xi → x[j]? = some xj →
+      ((distMatrix x).getD i [])[j]? =
+        some (Real.sqrt ((List.zipWith (fun a b => (a - b) * (a - b)) xi xj).sum))) ∧
+    (∀ i : Nat, i < x.length → ((distMatrix x).getD i [])[i]? = some 0) :=
+  ⟨rfl, fun i j xi xj hi hj => distMatrix_entry x i j xi xj hi hj, fun i hi => distMatrix_diag x i hi⟩
+
+/-- **`a(x)` on records**: for every sample of a data set the own-cluster accumulator is the sum of
+the Euclidean distances to the *other* members of its cluster, divided by their number -/
+theorem silhouette_points_a_excludes_self (x : List (List ℝ)) (labels : List Nat) (i li : Nat)
+    (hi : i < x.length) (hl : labels[i]? = some li) :
+    totalDist (distMatrix x) labels i li =
+      (((((distMatrix x).getD i []).zip labels).eraseIdx i).filterMap
+        fun (v, lj) => if lj == li then some v else none).sum ∧
+    labelCount labels li - 1 = ((labels.eraseIdx i).filter (· == li)).length :=
+  silhouette_a_excludes_self (distMatrix x) labels i li (distMatrix_diag x i hi) hl
+
+example : (1 : Nat) < ([[0, 0], [3, 4], [(6 : ℝ), 8]] : List (List ℝ)).length ∧ ([0, 0, 1] : List Nat)[1]? = some 0 := by
+  exact ⟨by decide, rfl⟩
+
+/-- **the silhouette score is unchanged by one permutation applied to records and labels together**
+(the last score of the statement's invariance clause that had no theorem): `ps` is the list of
+(record, label) pairs; the score is that of `silhouettePts`, the function the driver evaluates -/
+theorem perm_invariant_silhouette (ps ps' : List (List ℝ × Nat)) (h : ps.Perm ps') :
+    silhouettePts (ps.map Prod.fst) (ps.map Prod.snd) = silhouettePts (ps'.map Prod.fst) (ps'.map Prod.snd) :=
+  silhouettePts_perm h
+
+example : ([([0, 0], 0), ([3, 4], 1), ([(6 : ℝ), 8], 0)] : List (List ℝ × Nat)).Perm
+    [([3, 4], 1), ([0, 0], 0), ([6, 8], 0)] := List.Perm.swap _ _ _
+
+/-- the score in position-free form: 1 for a single label, else the mean over the samples of
+`(b − a)/max(a, b)`-by-cases (`silS`), with `a`, `b` built from the total Euclidean distances of the
+record to the samples of each label and the cluster sizes -/
+theorem silhouette_points_def (ps : List (List ℝ × Nat)) :
+    silhouettePts (ps.map Prod.fst) (ps.map Prod.snd) =
+      if (labelSet (ps.map Prod.snd)).length = 1 then 1
+      else (ps.map fun p => silS ps p.1 p.2).sum / (ps.length : ℝ) :=
+  silhouettePts_eq ps
+
+example : (labelSet [0, 1, 0]).length ≠ 1 := by decide
+
+/-- **the label-count glue of the silhouette** (`sils`): a receiver whose `label_count()` is that of
+its own labels (every array-backed dataset, a `CountedTargets` that was not mutated) gives the plain
+score; `silSample` is the cached form `silSampleC` with the data's own label set and cluster sizes -/
+theorem silhouette_fresh_cache {α : Type} [Field α] [LinearOrder α] (d : List (List α)) (labels : List Nat) (i li : Nat) :
+    silhouetteC (labelCache labels) d labels = some (silhouette d labels) ∧
+    silSample d labels i li = silSampleC (labelSet labels) (labelCount labels) d labels i li :=
+  ⟨silhouetteC_fresh d labels, rfl⟩
+
+example : silhouetteC (labelCache [0, 0, 1, 1]) [[0, 1, 4, 5], [1, 0, 3, 4], [4, 3, 0, 1], [5, 4, 1, (0 : Rat)]] [0, 0, 1, 1] =
+    some (47 / 63) ∧
+    silhouetteC (labelCache [0, 0, 0, 1]) [[0, 1, 4, 5], [1, 0, 3, 4], [4, 3, 0, 1], [5, 4, 1, (0 : Rat)]] [0, 0, 1, 2] = none := by
+  refine ⟨by decide +kernel, by decide +kernel⟩
+
+end SilhouetteDist
+
+section ExplainedVarianceCoded
+variable {α : Type} [Field α] [LinearOrder α] [IsStrictOrderedRing α]
+
+/-- **what `explained_variance` computes, with the regulariser the driver runs (`tiny = 1e-10`)**:
+`1 − (Σe² − mean e) / (Σ(y − ȳ)² + tiny)` — the value the open finding's class
+`value=sum_sq_minus_mean_error` recognises -/
+theorem explained_variance_coded_def (tiny : α) (a b : List α) (h : List.zipWith (· - ·) a b ≠ []) (hb : b ≠ []) :
+    explainedVariance tiny a b = some (1 - ((List.zipWith (fun x y => (x - y) * (x - y)) a b).sum -
+        (List.zipWith (· - ·) a b).sum / ((List.zipWith (· - ·) a b).length : α)) /
+      ((b.map fun y => (y - b.sum / (b.length : α)) * (y - b.sum / (b.length : α))).sum + tiny)) := by
+  have e2 : (subL a b).map (fun x => x * x) = List.zipWith (fun x y => (x - y) * (x - y)) a b := by
+    simp [subL, List.map_zipWith]
+  have hs : subL a b ≠ [] := h
+  unfold explainedVariance
+  rw [meanS_eq _ hb, Option.bind_some, meanS_eq _ hs, Option.map_some, e2, sumS_eq_sum, sqDevSum, sumS_eq_sum]
+  rfl
+
+example : explainedVariance (1/10000000000 : Rat) [1, 3, 2] [2, 1, 3] = some (1 - 6 / (2 + 1/10000000000)) := by
+  decide +kernel
+
+/-- `explained_variance_partial` for the regulariser the code carries: under the same hypothesis on
+the mean error the coded value is `1 − Σ(e − ē)² / (Σ(y − ȳ)² + tiny)` for every `tiny` -/
+theorem explained_variance_partial_tiny (tiny : α) (a b : List α)
+    (hm : ∀ m, meanS (subL a b) = some m → m = ((subL a b).length : α) * (m * m)) :
+    explainedVariance tiny a b = (meanS b).bind fun mean => (meanS (subL a b)).map fun me =>
+      1 - sqDevSum me (subL a b) / (sqDevSum mean b + tiny) := by
+  unfold explainedVariance
+  cases hb : meanS b with
+  | none => simp
+  | some mb =>
+    cases he : meanS (subL a b) with
+    | none => simp
+    | some me =>
+      simp only [Option.bind_some, Option.map_some]
+      obtain ⟨_, hs⟩ := meanS_some he
+      have := hm me he
+      rw [sqDevSum_expand me (subL a b), hs, sumS_eq_sum]
+      have hnum : ((subL a b).map fun x => x * x).sum - me =
+          ((subL a b).map fun x => x * x).sum - 2 * me * (((subL a b).length : α) * me) +
+            ((subL a b).length : α) * (me * me) := by
+        linear_combination (-1 : α) * this
+      rw [hnum]
+
+example : meanS (subL [1, 3, (2 : Rat)] [2, 1, 3]) = some 0 := by decide +kernel
+
+/-- the refutation with the regulariser the code carries: still `≠` the textbook value on linfa's own
+test vector -/
+theorem explained_variance_not_textbook_tiny :
+    explainedVariance (1/10000000000 : Rat) [1/10, 3/10, 2/10, 5/10, 7/10] [0, 1/10, 2/10, 3/10, 4/10] ≠
+      explainedVarianceSpec [1/10, 3/10, 2/10, 5/10, 7/10] [0, 1/10, 2/10, 3/10, (4/10 : Rat)] := by
+  decide +kernel
+
+end ExplainedVarianceCoded
 
 end LinfaSpec.Props.C05
